@@ -54,7 +54,7 @@ class Ctx:
             rn = getattr(p, "renames", None) or {}
             if any(rn.values()):
                 self.note("renamed items mapped back to the names the rules use (lib/rename.py): %s" %
-                          "; ".join("%s -> %s" % (k, v) for part in ("types", "variants", "fields", "fns") for k, v in sorted(rn.get(part, {}).items())))
+                          "; ".join("%s -> %s" % (k, v) for part in ("modules", "types", "variants", "fields", "fns") for k, v in sorted(rn.get(part, {}).items())))
         return self._progs[cfg]
 
     # ---- recording
